@@ -17,8 +17,15 @@ package main
 //       a RANDOM concurrent run (1-8 producers, consumer speeds); only the end state is judged,
 //       by the extracted checker chk_C19.
 //
-// <cfg> = strat cap max minInc gnum gden tnum tden   (strat 0 drop, 1 block, 2 block+timeout, 3 expand;
-//         growth factor gnum/gden and trigger threshold tnum/tden are dyadic or exactly comparable)
+// <cfg> = strat cap max minInc gnum gden tnum tden bto   (strat 0 drop, 1 block, 3 expand; growth factor
+//         gnum/gden and trigger threshold tnum/tden are dyadic or exactly comparable; bto = OverflowConfig.
+//         BlockTimeout in nanoseconds, zero, negative or positive: which of them mean "no timeout" is decided by
+//         the extracted model (ig_strat_of), not here)
+//
+// Nothing the implementation does makes a run fail: where a forced schedule sees something it does not expect
+// (a call that has to block returns, a wait times out ...) it writes the step `U <what>`, stops forcing, lets the
+// instance run freely until nothing moves and writes the line; the model replay then reports the disagreement
+// and the extracted checker judges the end state (block_never_drops, conservation, ...).
 
 import (
 	"fmt"
@@ -38,13 +45,35 @@ type c19Cfg struct {
 	strat                  int
 	cap, max, minInc       int
 	gnum, gden, tnum, tden int
+	bto                    int64 // OverflowConfig.BlockTimeout, nanoseconds (block strategy)
 }
 
 func (c c19Cfg) String() string {
-	return fmt.Sprintf("%d %d %d %d %d %d %d %d", c.strat, c.cap, c.max, c.minInc, c.gnum, c.gden, c.tnum, c.tden)
+	return fmt.Sprintf("%d %d %d %d %d %d %d %d %d", c.strat, c.cap, c.max, c.minInc, c.gnum, c.gden, c.tnum, c.tden, c.bto)
+}
+
+// tag of the timeout class for the input distribution
+func (c c19Cfg) kind() string {
+	if c.strat != 1 {
+		return fmt.Sprintf("strat%d", c.strat)
+	}
+	switch {
+	case c.bto == 0:
+		return "block/to=0"
+	case c.bto < 0:
+		return "block/to<0"
+	case c.bto < int64(time.Millisecond):
+		return "block/to-small"
+	}
+	return "block/to-ms"
 }
 
 const c19BlockTimeout = 3 * time.Millisecond
+
+// BlockTimeout values: the documented "no timeout" value 0, negative durations (accepted by the configuration,
+// block for ever as well), and positive ones down to a single nanosecond
+var c19NoTimeouts = []int64{0, 0, 0, -1, -1000, -int64(time.Second), -(1 << 40)}
+var c19SmallTimeouts = []int64{1, 1000, 50000, 400000, int64(time.Millisecond)}
 
 type c19World struct {
 	s        *streamsql.Streamsql
@@ -68,14 +97,11 @@ func newC19World(c c19Cfg, gateSink bool, delay time.Duration) (*c19World, error
 		pc.OverflowConfig.Strategy = "drop"
 	case 1:
 		pc.OverflowConfig.Strategy = "block"
-		pc.OverflowConfig.BlockTimeout = 0
-	case 2:
-		pc.OverflowConfig.Strategy = "block"
-		pc.OverflowConfig.BlockTimeout = c19BlockTimeout
+		pc.OverflowConfig.BlockTimeout = time.Duration(c.bto)
 	case 3:
 		pc.OverflowConfig.Strategy = "expand"
 	}
-	pc.OverflowConfig.AllowDataLoss = c.strat != 1
+	pc.OverflowConfig.AllowDataLoss = c.strat != 1 || c.bto > 0
 	pc.OverflowConfig.ExpansionConfig.GrowthFactor = float64(c.gnum) / float64(c.gden)
 	pc.OverflowConfig.ExpansionConfig.MinIncrement = c.minInc
 	pc.OverflowConfig.ExpansionConfig.TriggerThreshold = float64(c.tnum) / float64(c.tden)
@@ -113,6 +139,18 @@ func newC19World(c c19Cfg, gateSink bool, delay time.Duration) (*c19World, error
 }
 
 func (w *c19World) emit(p, k int) { w.s.Emit(map[string]interface{}{"id": c19ID(p, k)}) }
+
+// emitWait performs one Emit on its own goroutine and waits up to d for it to return (false: still running)
+func (w *c19World) emitWait(p, k int, d time.Duration) (chan struct{}, bool) {
+	ch := make(chan struct{})
+	go func() { w.emit(p, k); close(ch) }()
+	select {
+	case <-ch:
+		return ch, true
+	case <-time.After(d):
+		return ch, false
+	}
+}
 func (w *c19World) nproc() int {
 	w.mu.Lock()
 	defer w.mu.Unlock()
@@ -164,13 +202,49 @@ func (w *c19World) close() {
 	}
 }
 
-const c19Long = 3 * time.Second   // something that must happen
+// unexpected: the implementation did something no forced schedule allows. The observation becomes part of the
+// case line (`U what`), every gate and the sink are opened, the Emit calls still running (pending) get time to
+// return, the instance runs until nothing moves, and the line is written: the verdict is the checker's.
+func (w *c19World) unexpected(c c19Cfg, steps []string, what string, pending []chan struct{}, o *Out) error {
+	steps = append(steps, "U", strings.ReplaceAll(strings.ReplaceAll(what, " ", "_"), "#", "_"))
+	stream.VerifYieldReset(false)
+	atomic.StoreInt32(&w.gateSink, 0)
+	for i := 0; i < 4096; i++ {
+		select {
+		case w.sinkTok <- struct{}{}:
+		default:
+		}
+	}
+	for _, ch := range pending {
+		select {
+		case <-ch:
+		case <-time.After(c19Long):
+		}
+	}
+	last, lastChange := "", time.Now()
+	for deadline := time.Now().Add(2 * c19Long); time.Now().Before(deadline); {
+		st := w.s.GetStats()
+		cur := fmt.Sprintf("%d %d %d", w.nproc(), st[stream.DataChanLen], st[stream.InputDroppedCount])
+		if cur != last {
+			last, lastChange = cur, time.Now()
+		} else if time.Since(lastChange) > c19Short {
+			break
+		}
+		time.Sleep(time.Millisecond)
+	}
+	o.Line("C19 F %s # %s", c, w.final(steps))
+	o.Count("unexpected/" + strings.SplitN(what, ":", 2)[0])
+	return nil
+}
+
+const c19Long = 3 * time.Second         // something that must happen
 const c19Short = 120 * time.Millisecond // something expected not to happen (blocked)
 
 // ---------------------------------------------------------------------------------------------
 // T1: sequential scripts. The consumer is parked inside the sync sink (or blocked on the empty
-// channel), producers perform whole Emit calls one after the other.
-func c19Sequential(c c19Cfg, rng *RNG, nops int, o *Out) error {
+// channel), producers perform whole Emit calls one after the other. pE > 0 fixes the percentage of
+// Emit operations (high values keep the buffer full: backpressure scripts).
+func c19Sequential(c c19Cfg, rng *RNG, nops int, pE int, o *Out) error {
 	stream.VerifYieldReset(false)
 	w, err := newC19World(c, true, 0)
 	if err != nil {
@@ -181,36 +255,54 @@ func c19Sequential(c c19Cfg, rng *RNG, nops int, o *Out) error {
 	nextK := map[int]int{}
 	inSink := false
 	P := 1 + rng.Intn(3)
-	pE := 50 + rng.Intn(45) // percentage of emits
-	var blocked []chan struct{} // block strategy: senders blocked on the full channel (FIFO wake-up not assumed: at most one)
+	if pE <= 0 {
+		pE = 50 + rng.Intn(45) // percentage of emits
+	}
+	// block strategy: a sender blocked on the full channel (FIFO wake-up not assumed: at most one)
+	var blockedCh chan struct{}
 	blockedP := -1
+	pending := func() []chan struct{} {
+		if blockedCh != nil {
+			return []chan struct{}{blockedCh}
+		}
+		return nil
+	}
+	sawFull := false
 	for i := 0; i < nops || blockedP >= 0; i++ {
 		st := w.s.GetStats()
 		full := st[stream.DataChanLen] >= st[stream.DataChanCap]
 		if i < nops && rng.Intn(100) < pE && blockedP < 0 {
 			p := rng.Intn(P)
+			k := nextK[p]
+			nextK[p]++
 			if c.strat == 1 && full && inSink {
-				// would block for ever: start it asynchronously and observe that it is blocked
-				ch := make(chan struct{})
-				k := nextK[p]
-				nextK[p]++
-				go func() { w.emit(p, k); close(ch) }()
-				select {
-				case <-ch:
-					return fmt.Errorf("C19 T1: block strategy returned although the channel is full")
-				case <-time.After(c19Short / 4):
+				// block strategy, no room, consumer parked: whether the call blocks (no timeout) or returns
+				// (a timer fired) is OBSERVED and written down; the model decides whether that was allowed
+				sawFull = true
+				wait := c19Short / 4
+				if c.bto > 0 {
+					wait = time.Duration(c.bto) + c19Long // a timer is armed: it has to fire
 				}
-				blocked = append(blocked, ch)
-				blockedP = p
-				steps = append(steps, fmt.Sprintf("em %d gr %d X cs %d", p, p, p))
+				steps = append(steps, fmt.Sprintf("em %d gr %d", p, p))
+				ch, returned := w.emitWait(p, k, wait)
+				if returned {
+					steps = append(steps, fmt.Sprintf("FIN %d", p), w.obs())
+				} else {
+					blockedCh, blockedP = ch, p
+					steps = append(steps, fmt.Sprintf("X cs %d X to %d", p, p))
+				}
 				continue
 			}
-			w.emit(p, nextK[p])
-			nextK[p]++
+			if full {
+				sawFull = true
+			}
+			if ch, returned := w.emitWait(p, k, c19Long+time.Duration(maxI64(c.bto, 0))); !returned {
+				return w.unexpected(c, append(steps, fmt.Sprintf("em %d", p)), "T1: Emit did not return", []chan struct{}{ch}, o)
+			}
 			steps = append(steps, fmt.Sprintf("E %d", p))
 			if !inSink {
 				if !w.waitSink(c19Long) {
-					return fmt.Errorf("C19 T1: idle consumer did not pick up the row")
+					return w.unexpected(c, steps, "T1: idle consumer did not pick up the row", nil, o)
 				}
 				inSink = true
 				steps = append(steps, "ld rc")
@@ -220,17 +312,17 @@ func c19Sequential(c c19Cfg, rng *RNG, nops int, o *Out) error {
 			w.sinkTok <- struct{}{}
 			if had {
 				if !w.waitSink(c19Long) {
-					return fmt.Errorf("C19 T1: consumer did not receive although len>0")
+					return w.unexpected(c, steps, "T1: consumer did not receive although len>0", pending(), o)
 				}
 				steps = append(steps, "ld rc")
 				if blockedP >= 0 {
 					select {
-					case <-blocked[len(blocked)-1]:
+					case <-blockedCh:
 					case <-time.After(c19Long):
-						return fmt.Errorf("C19 T1: blocked sender not released by a receive")
+						return w.unexpected(c, steps, "T1: blocked sender not released by a receive", pending(), o)
 					}
 					steps = append(steps, fmt.Sprintf("cs %d", blockedP))
-					blockedP = -1
+					blockedP, blockedCh = -1, nil
 				}
 			} else {
 				inSink = false
@@ -242,8 +334,18 @@ func c19Sequential(c c19Cfg, rng *RNG, nops int, o *Out) error {
 		steps = append(steps, w.obs())
 	}
 	o.Line("C19 F %s # %s", c, w.final(steps))
-	o.Count(fmt.Sprintf("seq/strat%d/cap%d", c.strat, c.cap))
+	o.Count(fmt.Sprintf("seq/%s/cap%d", c.kind(), c.cap))
+	if sawFull {
+		o.Count(fmt.Sprintf("seq-emit-on-full-buffer/%s", c.kind()))
+	}
 	return nil
+}
+
+func maxI64(a, b int64) int64 {
+	if a > b {
+		return a
+	}
+	return b
 }
 
 // ---------------------------------------------------------------------------------------------
@@ -260,12 +362,14 @@ func c19ExpandVsConsumer(c c19Cfg, m int, o *Out) error {
 	defer w.close()
 	var steps []string
 	if !gC.WaitArrived(c19Long) {
-		return fmt.Errorf("C19 T2: consumer never reached consumer_loaded")
+		return w.unexpected(c, steps, "T2: consumer never reached consumer_loaded", nil, o)
 	}
 	steps = append(steps, "ld")
 	k := 0
 	for ; k < c.cap; k++ {
-		w.emit(0, k)
+		if ch, returned := w.emitWait(0, k, c19Long); !returned {
+			return w.unexpected(c, append(steps, "em 0"), "T2: Emit with room in the channel did not return", []chan struct{}{ch}, o)
+		}
 		steps = append(steps, "E 0")
 	}
 	steps = append(steps, w.obs())
@@ -274,7 +378,7 @@ func c19ExpandVsConsumer(c c19Cfg, m int, o *Out) error {
 	done := make(chan struct{})
 	go func() { w.emit(0, k); close(done) }()
 	if !gB.WaitArrived(c19Long) {
-		return fmt.Errorf("C19 T2: producer never reached expand_before_lock (cfg %s)", c)
+		return w.unexpected(c, append(steps, "em 0"), "T2: producer never reached expand_before_lock", []chan struct{}{done}, o)
 	}
 	steps = append(steps, "em 0 sd 0 xb 0 xr 0")
 	gB.Open()
@@ -294,7 +398,7 @@ func c19ExpandVsConsumer(c c19Cfg, m int, o *Out) error {
 			steps = append(steps, "tk")
 		}
 		if !gM.WaitArrived(c19Long) {
-			return fmt.Errorf("C19 T2: expander did not get the lock after the consumer released it")
+			return w.unexpected(c, steps, "T2: expander did not get the lock after the consumer released it", []chan struct{}{done}, o)
 		}
 		steps = append(steps, "xl 0 mg 0")
 	}
@@ -305,7 +409,7 @@ func c19ExpandVsConsumer(c c19Cfg, m int, o *Out) error {
 	for migrated := 1; migrated < m && migrated < inOld; migrated++ {
 		gM.Release()
 		if !gM.WaitArrived(c19Long) {
-			return fmt.Errorf("C19 T2: migrator did not come back to the gate")
+			return w.unexpected(c, steps, "T2: migrator did not come back to the gate", []chan struct{}{done}, o)
 		}
 		steps = append(steps, "mg 0")
 	}
@@ -338,7 +442,7 @@ func c19ExpandVsConsumer(c c19Cfg, m int, o *Out) error {
 	select {
 	case <-done:
 	case <-time.After(c19Long):
-		return fmt.Errorf("C19 T2: expanding Emit did not return")
+		return w.unexpected(c, steps, "T2: expanding Emit did not return", []chan struct{}{done}, o)
 	}
 	steps = append(steps, "FIN 0") // producer 0 runs alone until its Emit returns
 	// drain: consumer alone
@@ -364,27 +468,52 @@ func c19ExpandVsConsumer(c c19Cfg, m int, o *Out) error {
 // ---------------------------------------------------------------------------------------------
 // T5: random concurrent runs, end state only.
 func c19Random(c c19Cfg, rng *RNG, o *Out) error {
-	stream.VerifYieldReset(false)
 	delays := []time.Duration{0, 0, 20 * time.Microsecond, 200 * time.Microsecond}
 	delay := delays[rng.Intn(len(delays))]
+	P := 1 + rng.Intn(8)
+	ns := make([]int, P)
+	pauses := make([]int, P)
+	for p := range ns {
+		ns[p] = 5 + rng.Intn(60)
+		pauses[p] = rng.Intn(4) // 0: none
+	}
+	return c19Concurrent(c, ns, pauses, delay, rng, fmt.Sprintf("random/%s/cap%d/P%d", c.kind(), c.cap, P), o)
+}
+
+// T6: backpressure. Block strategy, BlockTimeout zero / negative / small positive, a tiny buffer and a
+// consumer that is slower than the producers (the sync sink sleeps per row), producers emitting without a
+// pause: nearly every Emit finds the buffer full. Without a timeout (the model says which values those are)
+// nothing may be dropped; with one, every row is processed or counted.
+func c19Backpressure(c c19Cfg, rng *RNG, o *Out) error {
+	delay := []time.Duration{100, 250, 500}[rng.Intn(3)] * time.Microsecond
+	P := 1 + rng.Intn(3)
+	ns := make([]int, P)
+	for p := range ns {
+		ns[p] = 15 + rng.Intn(30)
+	}
+	return c19Concurrent(c, ns, make([]int, P), delay, rng, fmt.Sprintf("backpressure/%s/cap%d/P%d", c.kind(), c.cap, P), o)
+}
+
+func c19Concurrent(c c19Cfg, ns []int, pauses []int, delay time.Duration, rng *RNG, tag string, o *Out) error {
+	stream.VerifYieldReset(false)
 	w, err := newC19World(c, false, delay)
 	if err != nil {
 		return err
 	}
-	P := 1 + rng.Intn(8)
-	ns := make([]int, P)
+	P := len(ns)
+	issued := make([]int64, P) // Emit calls actually made (a producer that hangs stops short of ns[p])
 	var wg sync.WaitGroup
 	total := 0
 	for p := 0; p < P; p++ {
-		ns[p] = 5 + rng.Intn(60)
 		total += ns[p]
-		pause := rng.Intn(4) // 0: none
+		pause := pauses[p]
 		seed := rng.Next()
 		wg.Add(1)
 		go func(p, n int) {
 			defer wg.Done()
 			r := NewRNG(seed)
 			for k := 0; k < n; k++ {
+				atomic.AddInt64(&issued[p], 1)
 				w.emit(p, k)
 				if pause > 0 && r.Intn(pause+1) == 0 {
 					time.Sleep(time.Duration(r.Intn(150)) * time.Microsecond)
@@ -394,10 +523,13 @@ func c19Random(c c19Cfg, rng *RNG, o *Out) error {
 	}
 	fin := make(chan struct{})
 	go func() { wg.Wait(); close(fin) }()
+	hung := false
 	select {
 	case <-fin:
 	case <-time.After(20 * time.Second):
-		return fmt.Errorf("C19 random: producers did not finish (cfg %s)", c)
+		// an Emit call that never returns: the rows issued so far are judged (the one in flight is neither
+		// processed nor counted: conservation)
+		hung = true
 	}
 	// quiescence: everything accounted for, or nothing moves for 400 ms
 	deadline := time.Now().Add(10 * time.Second)
@@ -422,11 +554,14 @@ func c19Random(c c19Cfg, rng *RNG, o *Out) error {
 		fmt.Fprintf(&sb, " %d", id)
 	}
 	var nsb strings.Builder
-	for _, n := range ns {
-		fmt.Fprintf(&nsb, " %d", n)
+	for p := range ns {
+		fmt.Fprintf(&nsb, " %d", atomic.LoadInt64(&issued[p]))
 	}
 	o.Line("C19 R %s #%s # %d %d %d #%s", c, nsb.String(), st[stream.InputDroppedCount], st[stream.InputCount], st[stream.DataChanCap], sb.String())
-	o.Count(fmt.Sprintf("random/strat%d/cap%d/P%d", c.strat, c.cap, P))
+	o.Count(tag)
+	if hung {
+		o.Count("unexpected/producers did not finish")
+	}
 	w.close()
 	return nil
 }
@@ -434,6 +569,14 @@ func c19Random(c c19Cfg, rng *RNG, o *Out) error {
 func c19RandCfg(rng *RNG, strat int) c19Cfg {
 	caps := []int{1, 2, 16, 3, 5}
 	c := c19Cfg{strat: strat, cap: caps[rng.Intn(len(caps))], gnum: 3, gden: 2, tnum: 4, tden: 5, minInc: 1000, max: 10000}
+	switch strat {
+	case 1: // block, no timeout: zero or negative
+		c.bto = c19NoTimeouts[rng.Intn(len(c19NoTimeouts))]
+	case 2: // block with a timeout of a few milliseconds (long enough for the forced scripts to be deterministic)
+		c.strat, c.bto = 1, int64(c19BlockTimeout)
+	case 4: // block with a small positive timeout (concurrent runs only: the timer races with the send)
+		c.strat, c.bto = 1, c19SmallTimeouts[rng.Intn(len(c19SmallTimeouts))]
+	}
 	if strat == 3 {
 		g := [][2]int{{3, 2}, {2, 1}, {5, 4}, {1, 1}, {0, 1}, {4, 1}}[rng.Intn(6)]
 		c.gnum, c.gden = g[0], g[1]
@@ -450,9 +593,9 @@ func c19RandCfg(rng *RNG, strat int) c19Cfg {
 
 func runC19(tier string, seed uint64, o *Out) error {
 	rng := NewRNG(seed)
-	nSeq, nRand, nForced := 140, 50, 8
+	nSeq, nRand, nForced, nBack := 140, 50, 8, 15
 	if tier == "thorough" {
-		nSeq, nRand, nForced = 1500, 500, 40
+		nSeq, nRand, nForced, nBack = 1500, 500, 40, 120
 	}
 	// forced expansion-vs-consumer schedules
 	for i := 0; i < nForced; i++ {
@@ -467,13 +610,35 @@ func runC19(tier string, seed uint64, o *Out) error {
 	}
 	for i := 0; i < nSeq; i++ {
 		c := c19RandCfg(rng, []int{0, 1, 2, 3, 3, 3}[rng.Intn(6)])
-		if err := c19Sequential(c, rng, 10+rng.Intn(40), o); err != nil {
+		if err := c19Sequential(c, rng, 10+rng.Intn(40), 0, o); err != nil {
+			return err
+		}
+	}
+	// backpressure scripts: block strategy, every class of BlockTimeout, a small buffer kept full
+	for i := 0; i < nBack; i++ {
+		c := c19RandCfg(rng, []int{1, 1, 1, 2}[i%4])
+		c.cap = 1 + i%3
+		if i < len(c19NoTimeouts) {
+			c.strat, c.bto = 1, c19NoTimeouts[i] // every value at least once
+		}
+		if err := c19Sequential(c, rng, 12+rng.Intn(12), 85, o); err != nil {
 			return err
 		}
 	}
 	for i := 0; i < nRand; i++ {
-		c := c19RandCfg(rng, []int{0, 1, 2, 3, 3}[rng.Intn(5)])
+		c := c19RandCfg(rng, []int{0, 1, 2, 3, 3, 4}[rng.Intn(6)])
 		if err := c19Random(c, rng, o); err != nil {
+			return err
+		}
+	}
+	// backpressure runs: slow consumer, full buffer, block strategy with zero / negative / small positive timeouts
+	for i := 0; i < nBack; i++ {
+		c := c19RandCfg(rng, []int{1, 1, 4}[i%3])
+		c.cap = 1 + rng.Intn(3)
+		if i < len(c19NoTimeouts) {
+			c.strat, c.bto = 1, c19NoTimeouts[i]
+		}
+		if err := c19Backpressure(c, rng, o); err != nil {
 			return err
 		}
 	}
